@@ -297,7 +297,7 @@ def run_behind(spec):
         except Exception:
             return [], ["behind:answer-unreadable"]
         exp = [_norm_item(x, set(_random_uids(items, r["items"]))) for x in r["items"]]
-        got_n = [_norm_item(x, set(_random_uids(items, got)) if len(got) == len(items) else set()) for x in got]
+        got_n = [_norm_item(x, set(_random_uids(items, got))) for x in got]
         if exp != got_n:
             sa, sb = hist.snapshot(a, _random_uids(items, r["items"])), hist.snapshot(b, _random_uids(items, r["items"]))
             what = "and-the-store-is-as-if-executed" if sa == sb else "store-differs-too"
